@@ -114,3 +114,12 @@ claim('C07',
       "for non-negativity. The M-matrix theorem bridges from structure to the range property for div u = 0.",
       "Trusted: weakly-chained-diagonally-dominant Z-matrix => inverse non-negative; sign domain by positive-increment substitution.",
       "sign-domain abstract interpretation of statically extracted stencil rows + exact row-sum identities", "DESIGN.md 5 C07")
+
+claim('C08',
+      "Static: operator-level symmetries are proved on the extracted stencils with atoms renamed/re-indexed: equivariance under every Cartesian "
+      "axis transposition (all term families, gradient, means, ghost values, boundary rows), agreement of each embedding pair (Grid3D>2D>1D, "
+      "Cylindrical3D>Cylindrical2D/Polar>Cylindrical1D) on data constant along the extra axis, mirror symmetry with reversed normal velocity "
+      "(TVD: after verifying that every limiter factor is multiplied by the difference its _fsign guards), and translation across a periodic seam "
+      "on uniform axes.",
+      "Trusted: exact algebra; solution-level statements follow with C03/C04.",
+      "symbolic stencil extraction + exact comparison under atom renaming (symmetry transformations)", "DESIGN.md 5 C08")
